@@ -5,6 +5,7 @@
 // verif/harness/c05.Content):
 //
 //	put:KEY:VER:LEN   cache.Put of Content(KEY, VER, LEN)
+//	putf:KEY:VER:LEN  the same, then read DiskCache.OutputFile(out) as runner.writeCacheReader's callers do
 //	getb:KEY          cache.GetBytes
 //	getf:KEY          cache.GetFile, then read the returned path
 //	trim              DiskCache.Trim
@@ -16,7 +17,8 @@
 //	OK <op>                      put/trim/close done
 //	VALID <op> <version>         hit, complete content of some version of that key, consistent with the entry
 //	MISS <op>                    miss
-//	GONE <op> <error>            GetFile returned a path that could not be read afterwards
+//	GONE <op> <error>            GetFile/OutputFile returned a path that could not be read afterwards
+//	PARTIAL <op> <n> of <size>   that path held only a proper prefix of the content when read
 //	INVALID <op> <reason>        hit with anything else
 //	ERR <op> <error>             Put failed
 package main
@@ -27,6 +29,7 @@ import (
 	"flag"
 	"fmt"
 	"os"
+	"runtime"
 	"strconv"
 	"strings"
 
@@ -35,6 +38,12 @@ import (
 	"honnef.co/go/tools/lintcmd/cache"
 	"verif/harness/c05"
 )
+
+func init() {
+	// all file-system calls on the initial thread: strace's per-thread injection
+	// counters then count the process's calls (used by the trim-race reproduction)
+	runtime.LockOSThread()
+}
 
 func main() {
 	dir := flag.String("dir", "", "cache directory")
@@ -60,7 +69,7 @@ func main() {
 		for _, op := range ops {
 			f := strings.Split(op, ":")
 			switch f[0] {
-			case "put":
+			case "put", "putf":
 				ver, _ := strconv.Atoi(f[2])
 				n, _ := strconv.Atoi(f[3])
 				data := c05.Content(f[1], ver, n)
@@ -72,6 +81,19 @@ func main() {
 					fmt.Fprintf(out, "INVALID %s Put returned output id %x size %d, stored content has %x size %d\n", op, o, size, c05.OutID(data), n)
 				default:
 					fmt.Fprintf(out, "OK %s\n", op)
+					if f[0] == "putf" {
+						got, err := os.ReadFile(c.OutputFile(o))
+						switch {
+						case err != nil:
+							fmt.Fprintf(out, "GONE %s %v\n", op, err)
+						case len(got) < len(data) && bytes.HasPrefix(data, got):
+							fmt.Fprintf(out, "PARTIAL %s %d of %d\n", op, len(got), len(data))
+						case !bytes.Equal(got, data):
+							fmt.Fprintf(out, "INVALID %s the output file of the content just stored holds %d other bytes\n", op, len(got))
+						default:
+							fmt.Fprintf(out, "VALID %s %d\n", op, ver)
+						}
+					}
 				}
 			case "getb":
 				data, e, err := cache.GetBytes(c, c05.ID(f[1]))
@@ -110,6 +132,8 @@ func main() {
 func report(out *bufio.Writer, op, key string, data []byte, e cache.Entry) {
 	ver, err := c05.Validate(key, data)
 	switch {
+	case err != nil && c05.IsProperPrefix(key, data, int(e.Size)):
+		fmt.Fprintf(out, "PARTIAL %s %d of %d\n", op, len(data), e.Size)
 	case err != nil:
 		fmt.Fprintf(out, "INVALID %s %v\n", op, err)
 	case e.Size != int64(len(data)):
